@@ -1350,6 +1350,23 @@ class BinBytes(SimpleCorr):
         t = oracle_line.split(" ")
         return t[2] if len(t) > 2 else None
 
+    def run_cases(self, d, blocks, tag):
+        impl, model, orc, st = SimpleCorr.run_cases(self, d, blocks, tag)
+        # an abort of the worker process on an allocation is attributed through the decoder MODEL: when the model shows an input
+        # field requesting more than 64 MiB (BIGALLOC) the abort belongs to the recorded class of count-sized allocations (whether
+        # the allocator refuses such a request depends on the machine's memory and overcommit policy); any other abort keeps the
+        # unlisted key `abort-alloc`.  Site attribution (bin-alloc-<site>) is done by the fault stage with its allocation probe.
+        out = []
+        for l in orc:
+            t = l.split(" ")
+            if len(t) > 2 and t[2] == "abort-alloc":
+                mo = model.get(t[0], [])
+                if mo and mo[-1] == "BIGALLOC":
+                    t[2] = "abort-alloc-count-field"
+                    l = " ".join(t)
+            out.append(l)
+        return impl, model, out, st
+
     def disagreements(self, blocks, impl, model):
         out = []
         for cid, lines in blocks:
